@@ -677,12 +677,16 @@ pub fn info_c08() -> PropInfo {
     }
 }
 
-const PRESTATES: [&str; 12] = ["same-length-garbage", "absent", "stale", "empty", "random-text", "prefix-0", "prefix-1", "prefix-in-multibyte", "prefix-mid", "prefix-len-1", "random-bytes-invalid-utf8", "right+garbage"];
+const PRESTATES: [&str; 13] = ["same-text-other-line-ending", "same-length-garbage", "absent", "stale", "empty", "random-text", "prefix-0", "prefix-1", "prefix-in-multibyte", "prefix-mid", "prefix-len-1", "random-bytes-invalid-utf8", "right+garbage"];
 
 fn prestate(kind: &str, good: &[u8], r: &mut StdRng) -> Option<Vec<u8>> {
     let n = good.len();
     match kind {
         "absent" => None,
+        "same-text-other-line-ending" => {
+            let t = String::from_utf8_lossy(good).to_string();
+            Some(if t.contains("\r\n") { t.replace("\r\n", "\n") } else { t.replace('\n', "\r\n") }.into_bytes())
+        }
         "same-length-garbage" => Some(good.iter().map(|b| if *b == b'\n' { b'\n' } else { b'#' }).collect()),
         "stale" => Some(b"STALE: previous generation\nline two\n".to_vec()),
         "empty" => Some(vec![]),
@@ -862,7 +866,7 @@ fn run_c08(ctx: &mut Ctx) {
             ctx.scratch.discard(&b.root);
             continue;
         }
-        c08_prestates(ctx, &b, &mut r, ctx.tier.pick(11, 22));
+        c08_prestates(ctx, &b, &mut r, ctx.tier.pick(13, 26));
         if i % ctx.tier.pick(4, 3) == 0 {
             c08_crashes(ctx, &b, &mut r, ctx.tier.pick(4, 24));
         }
@@ -1276,6 +1280,16 @@ fn decoys_for(files: &Files) -> Files {
         let dir = model::dir_of(&o);
         add(if dir.is_empty() { stem.clone() } else { format!("{dir}/{stem}") });
         add(format!("{s}.orig.bak"));
+        // names a careless "write to a scratch file, then rename" would pick
+        add(format!("{o}.tmp"));
+        add(format!("{o}.new"));
+        let base = o.rsplit('/').next().unwrap();
+        let stem_all = match base.rfind('.') {
+            Some(i) if i > 0 => &base[..i],
+            _ => base,
+        };
+        add(if dir.is_empty() { format!("{stem_all}.tmp") } else { format!("{dir}/{stem_all}.tmp") });
+        add(if dir.is_empty() { format!(".{base}.tmp") } else { format!("{dir}/.{base}.tmp") });
         add(format!("other/{}", o.rsplit('/').next().unwrap()));
         add(format!("{o}.d/keep.txt"));
     }
@@ -1367,7 +1381,7 @@ fn c10_strace(ctx: &mut Ctx, files: &Files, trailing: bool, mode: Mode) {
     materialize(&root, &all, &[]);
     let mut case = ProjectCase::simple(files.clone());
     case.trailing = trailing;
-    if !matches!(mode, Mode::Build) {
+    if !matches!(mode, Mode::Build | Mode::InMemoryBuild) {
         let _ = run_at(&root, &case, Mode::Build, trailing);
     }
     let prefix = ctx.scratch.root.join("strace").join("t");
@@ -1392,6 +1406,55 @@ fn c10_strace(ctx: &mut Ctx, files: &Files, trailing: bool, mode: Mode) {
         }
     }
     ctx.scratch.discard(&root);
+}
+
+/// CLI flag combinations: a top-level `-N` in front of a subcommand must not turn verify / clean
+/// into something that writes
+fn c10_cli_combos(ctx: &mut Ctx, files: &Files, trailing: bool) {
+    for (args, sub) in [(vec!["-N", "verify", "-q", "-r", "."], "verify"), (vec!["-N", "clean", "-q", "-r", "."], "clean"), (vec!["-N", "verify", "-q", "-r", "-n", "."], "verify")] {
+        for stale in [false, true] {
+            let root = ctx.scratch.fresh();
+            let mut all = files.clone();
+            all.extend(decoys_for(files));
+            materialize(&root, &all, &[]);
+            let mut case = ProjectCase::simple(files.clone());
+            case.trailing = trailing;
+            if stale {
+                let _ = run_at(&root, &case, Mode::Build, trailing);
+                for s in model::sources(files) {
+                    let o = root.join(model::output_of(&s).unwrap());
+                    if let Ok(mut b) = std::fs::read(&o) {
+                        b.extend_from_slice(b"stale\n");
+                        let _ = std::fs::write(&o, b);
+                    }
+                }
+            }
+            set_sentinels(&root);
+            let s0 = snap(&root);
+            let a: Vec<String> = args.iter().map(|x| x.to_string()).collect();
+            let o = run_cli(&root, &a, &CliOpts::default());
+            ctx.evals += 1;
+            ctx.count("cli_flag_combination_runs", 1);
+            let s1 = snap(&root);
+            let d = diff(&s0, &s1);
+            let outs: Vec<String> = model::sources(files).iter().map(|s| model::output_of(s).unwrap()).collect();
+            let cj = json!({"kind": "cli-combo", "args": a, "stale": stale, "files": files_json(files), "trailing": trailing});
+            if sub == "verify" {
+                for p in d.all_paths() {
+                    if outs.contains(&p) {
+                        ctx.violation("C10:cli:verify-with-N-touched-output", format!("`txtpp {}` changed output {p} (exit {:?})", a.join(" "), o.code), cj.clone());
+                    }
+                }
+                if !d.created.is_empty() && !stale {
+                    ctx.violation("C10:cli:verify-with-N-created", format!("`txtpp {}` created {:?}", a.join(" "), d.created), cj.clone());
+                }
+            } else if !d.created.is_empty() || !d.content.is_empty() {
+                ctx.violation("C10:cli:clean-with-N-created-or-modified", format!("`txtpp {}` created {:?} / modified {:?}", a.join(" "), d.created, d.content), cj.clone());
+            }
+            ctx.distinct.insert(crate::util::hash_files(files) ^ crate::util::hash_str(&format!("{a:?}{stale}")));
+            ctx.scratch.discard(&root);
+        }
+    }
 }
 
 fn run_c10(ctx: &mut Ctx) {
@@ -1424,6 +1487,9 @@ fn run_c10(ctx: &mut Ctx) {
             for mode in [Mode::Build, Mode::InMemoryBuild, Mode::Verify, Mode::Clean] {
                 c10_strace(ctx, &p.files, p.trailing, mode);
             }
+            if pre.verdict.is_ok() {
+                c10_cli_combos(ctx, &p.files, p.trailing);
+            }
         }
         if i == 0 {
             ctx.sample(|| json!({"sources": srcs, "decoys": decoys_for(&p.files).keys().cloned().collect::<Vec<_>>()}));
@@ -1432,6 +1498,10 @@ fn run_c10(ctx: &mut Ctx) {
 }
 
 fn replay_c10(ctx: &mut Ctx, v: &Value) {
+    if v["kind"].as_str() == Some("cli-combo") {
+        c10_cli_combos(ctx, &crate::util::files_from_json(&v["files"]), v["trailing"].as_bool().unwrap_or(true));
+        return;
+    }
     let case = ProjectCase::from_json(v);
     c10_case(ctx, &case.files, case.trailing, case.mode.clone(), case.inputs.clone(), case.recursive, v["prebuild"].as_bool().unwrap_or(false), case.threads);
 }
